@@ -22,6 +22,42 @@ type PathQuery struct {
 	Target InstrPred
 	// EdgeOK restricts which branch edges may be taken (nil = all)
 	EdgeOK func(b *ssa.BasicBlock, succ int) bool
+	// SuccessOnly: edges into a return block on which the returned error (a phi of that block: single-exit functions
+	// with a result variable) is definitely non-nil are not taken - such a path is not a path to a success return
+	SuccessOnly bool
+}
+
+// errEdgeNonNil: the edge b -> b.Succs[si] enters a block that returns an error phi whose value on this edge cannot be nil.
+func errEdgeNonNil(b *ssa.BasicBlock, si int) bool {
+	s := b.Succs[si]
+	if len(s.Instrs) == 0 {
+		return false
+	}
+	ret, ok := s.Instrs[len(s.Instrs)-1].(*ssa.Return)
+	if !ok {
+		return false
+	}
+	idx := errResultIndex(ret.Parent().Signature)
+	if idx < 0 {
+		return false
+	}
+	ph, ok := retOperand(ret, idx).(*ssa.Phi)
+	if !ok || ph.Block() != s {
+		return false
+	}
+	k := -1
+	for i, pb := range s.Preds {
+		if pb == b {
+			if k >= 0 {
+				return false // both arms of a branch lead here: the edge is ambiguous
+			}
+			k = i
+		}
+	}
+	if k < 0 || k >= len(ph.Edges) {
+		return false
+	}
+	return !mayBeNilError(ph.Edges[k], map[ssa.Value]bool{})
 }
 
 // FindPath returns a witness path (instructions with positions, abbreviated) or nil if no such path exists.
@@ -64,6 +100,9 @@ func (q PathQuery) FindPath() []ssa.Instruction {
 				if q.EdgeOK != nil && !q.EdgeOK(n.b, si) {
 					continue
 				}
+				if q.SuccessOnly && errEdgeNonNil(n.b, si) {
+					continue
+				}
 				push(node{sb, 0}, n)
 			}
 			continue
@@ -94,6 +133,9 @@ func (q PathQuery) FindPath() []ssa.Instruction {
 		}
 		for si, s := range n.b.Succs {
 			if q.EdgeOK != nil && !q.EdgeOK(n.b, si) {
+				continue
+			}
+			if q.SuccessOnly && errEdgeNonNil(n.b, si) {
 				continue
 			}
 			push(node{s, 0}, n)
